@@ -7,6 +7,10 @@ for l in open('/verif/properties.jsonl'):
     if p['id'] == pid:
         break
 known = [f for f in json.load(open('/verif/known_findings.json'))['findings'] if f['property'] == pid and f['status'] == 'known']
+import re
+_d = open('/verif/DESIGN.md').read()
+_m = re.search(r"\*\*Judged outside the properties' quantifiers \(not recorded, not repaired\)\*\*: (.*?)\n\n", _d, re.S)
+JUDGED = " ".join(_m.group(1).split()) if _m else ""
 kn = "\n".join(f"  - {f['what']}" for f in known) or "  (none)"
 print(f"""You are helping to evaluate the open-source Python project trailofbits/graphtage (a semantic diff tool for JSON/YAML/XML/CSV/plist). You have your own scratch git worktree of the project at {wt} (python package in {wt}/graphtage, tests in {wt}/test). Work ONLY inside {wt}; do not read or touch /repo or /verif or any other directory under /tmp.
 
@@ -23,11 +27,15 @@ Your job: find out whether the code AS IT IS (do not modify the package) violate
 Already known violations of this property (do NOT report these again, and steer your experiments away from them):
 {kn}
 
+Behaviours that were examined before and judged to lie OUTSIDE what the properties quantify over (do not report these either): {JUDGED}
+
 For EACH distinct new violation you can demonstrate (at most 5, most convincing first) deliver inside {wt}/hunt_out/<i>/ :
   - witness.py : a small standalone program that exits 1 (printing what went wrong) when the violation shows and 0 otherwise; it must NOT assert on graphtage.__file__ (it will be re-run against another checkout via PYTHONPATH); run it as `cd {wt} && PYTHONPATH={wt} /venv/bin/python hunt_out/<i>/witness.py`;
   - notes.md   : 5-12 lines: the minimal input / options / calls, observed vs expected behaviour, the root cause as precisely as you can locate it (file, function, the statement(s) responsible), whether several witnesses share one root cause, and a sketch of the smallest repair a maintainer would accept.
 Distinct means distinct root causes: several inputs failing for the same reason are ONE finding. Only report what you have reproduced; a suspicion without a failing run goes into a final "unconfirmed suspicions" list in your report, not into hunt_out/.
 
 The interpreter is /venv/bin/python (3.12, all dependencies installed; no network). Do not edit the package or the tests; leave the worktree clean apart from hunt_out/. You do not need to run the project's test suite.
+
+Housekeeping: never use `git stash` (shared between parallel worktrees) and never use pkill/killall; kill only PIDs you started.
 
 Finish with a short report: per finding a 3-line summary (input, observed/expected, root cause location), then the unconfirmed suspicions, then a one-paragraph account of what you tested that held up (so that the absence of findings is informative).""")
